@@ -34,6 +34,10 @@ class LoopType(enum.Enum):
 
 class WebSession(object):
     '''A web session.'''
+
+    URL_BOUND_FIELDS = ('Host', 'Authorization', 'Cookie', 'Cookie2')
+    '''Fields whose values belong to the URL of a single request.'''
+
     def __init__(self, request: Request,
                  http_client: Client,
                  redirect_tracker: RedirectTracker,
@@ -169,6 +173,7 @@ class WebSession(object):
 
                 request = self._original_request.copy()
                 request.url = url
+                self._reset_url_bound_fields(request, url)
             else:
                 request = self._request_factory(url)
 
@@ -179,6 +184,23 @@ class WebSession(object):
         self._next_request = request
 
         _logger.debug('Updated next redirect request to {0}.'.format(request))
+
+    def _reset_url_bound_fields(self, request: Request, url: str):
+        '''Replace the fields that were computed for the previous URL.
+
+        A repeated request (307, 308) is a copy of the original request,
+        which by now carries the Host, credentials and cookies of the
+        original URL. These must not be sent to the redirect target. They
+        are set to what a new request to the URL starts with and are derived
+        again for the new URL like for any other request.
+        '''
+        new_fields = self._request_factory(url).fields
+
+        for name in self.URL_BOUND_FIELDS:
+            request.fields.pop(name, None)
+
+            for value in new_fields.get_list(name):
+                request.fields.add(name, value)
 
     def _get_cookie_referrer_host(self):
         '''Return the referrer hostname.'''
